@@ -1280,6 +1280,14 @@ def install(prog):
         fmt_value(it, 'display', v, Formatter(out))
         return StrObj(out)
 
+    @M(r'<(.*) as Fn(?:Mut|Once)?<\(.*\)>>::call(?:_mut|_once)?')
+    def _(it, m, a):
+        clo = deref(a[0])
+        if clo is None:          # zero-sized closure: MIR never initialises the local
+            clo = Agg(re.sub(r'^&(mut )?', '', m.group(1)), None, [])
+        tup = a[1]
+        return it.call_closure(clo, list(tup.f) if isinstance(tup, Agg) else [tup])
+
     # ---- logging: empty bodies (log level is statically disabled) -------------------------------
     @M(r'<Level as PartialOrd<LevelFilter>>::le|<log::Level as PartialOrd<log::LevelFilter>>::le')
     def _(it, m, a): return False
